@@ -265,6 +265,26 @@ func childModes() error {
 	if err := cst.Close(); err != nil {
 		return err
 	}
+	// an operator who keeps the secret files on another volume: drand_id.private and dist_key.private of a
+	// second beacon are symbolic links into a vault folder, one dangling (the target is created by the
+	// save), one to a file the operator created beforehand with an ordinary mode
+	vault := dfs.CreateSecureFolder(filepath.Join(base, "vault"))
+	lst := key.NewFileStore(mb, "linked")
+	if err := os.Symlink(filepath.Join(vault, "id.secret"), filepath.Join(mb, "linked", key.FolderName, "drand_id.private")); err != nil {
+		return err
+	}
+	if err := os.WriteFile(filepath.Join(vault, "share.secret"), nil, 0o644); err != nil {
+		return err
+	}
+	if err := os.Symlink(filepath.Join(vault, "share.secret"), filepath.Join(mb, "linked", key.GroupFolderName, "dist_key.private")); err != nil {
+		return err
+	}
+	if err := lst.SaveKeyPair(pairs[0]); err != nil {
+		return fmt.Errorf("SaveKeyPair through a symbolic link: %w", err)
+	}
+	if err := lst.SaveShare(shares[0]); err != nil {
+		return fmt.Errorf("SaveShare through a symbolic link: %w", err)
+	}
 	obs, err := observe(base, secrets)
 	if err != nil {
 		return err
@@ -301,6 +321,9 @@ func observe(base string, secrets []secret) ([]fileObs, error) {
 		fi, err := os.Lstat(p)
 		if err != nil {
 			return err
+		}
+		if fi.Mode()&os.ModeSymlink != 0 {
+			return nil // the file it points to is observed under its own path
 		}
 		rel, _ := filepath.Rel(base, p)
 		o := fileObs{Path: rel, Mode: uint32(fi.Mode().Perm()), Dir: d.IsDir()}
